@@ -113,6 +113,9 @@ func (d *Disk) opportunity(site string) error {
 	if (d.Mode == "eio" || d.Mode == "enospc") && !realOpSite(site) {
 		return nil // errors are only injected where a real file operation follows
 	}
+	if d.Mode == "short" {
+		return nil // short writes are injected by the file wrapper's Write only
+	}
 	idx := d.opps
 	d.opps++
 	if idx != d.ArmAt {
